@@ -1144,8 +1144,13 @@ def masked_iterate() -> Callable[[GenerativeFunction[Y]], GenerativeFunction[Y]]
         def pre(state, flag: Flag):
             return flag, state
 
-        def post(_unused_args, _xformed, masked_retval: Mask[Y]):
-            v = masked_retval.value
+        def post(args, _xformed, masked_retval: Mask[Y]):
+            # a masked-off step's return value is invalid data: do not feed it to
+            # the following steps, keep iterating from the last valid value
+            state, flag = args
+            v = jtu.tree_map(
+                lambda new, old: jnp.where(flag, new, old), masked_retval.value, state
+            )
             return v, v
 
         # scan_step: (a, bool) -> a
